@@ -3,9 +3,10 @@
 # copies a confirmed seeded change into /verif/seeded/<seed-id>/ with its demonstration and a meta.json
 import json,sys,os,shutil,re
 mut,sid,clog,elog=sys.argv[1:5]
+note=sys.argv[5] if len(sys.argv)>5 else None
 dst=f'/verif/seeded/{sid}'; os.makedirs(dst,exist_ok=True)
 for f in os.listdir(mut):
-    if f.endswith('.go') or f=='patch.diff': shutil.copy(os.path.join(mut,f),dst)
+    if f.endswith('.go') or f in ('patch.diff','patch.orig.diff'): shutil.copy(os.path.join(mut,f),dst)
 meta=json.load(open(os.path.join(mut,'meta.json')))
 c=open(clog).read(); blk=c.split('== '+mut+'\n')
 conf=blk[1].split('== ')[0].strip() if len(blk)>1 else ''
@@ -14,5 +15,7 @@ out={"id":sid,"breaks_property":meta.get('property'),"files":meta.get('files'),"
  "author_ran":meta.get('ran'),
  "confirmed_in_scratch_worktree":conf,
  "check_result":[l.strip()[:600] for l in ev]}
+if note: out['note']=note
+if os.path.exists(os.path.join(mut,'patch.orig.diff')): out['rebased']='patch.diff is the author\'s change re-applied by hand on top of a later fix: commit in /repo (patch.orig.diff is the original)'
 json.dump(out,open(os.path.join(dst,'meta.json'),'w'),indent=1)
 print(sid, 'confirmed' if 'FAIL' in conf and 'demo clean : ok' in conf else 'CHECK', '| detected' if any('exit=1' in l for l in ev) else '| missed')
